@@ -548,11 +548,22 @@ func checkSide(run *MixRun) {
 				// stream not driven to its end by the client program: End may legitimately be pending
 				continue
 			}
-			if ne != 1 || evs[len(evs)-1].Kind != "End" {
-				e.Violate(prop, "stats-end", site, "call %d: %s stats handler %d: %d End events, last event %s (events: %s)", id, side, h.idx, ne, evs[len(evs)-1].Kind, kindsOf(evs))
+			// exactly one End (the statement does not ask for it to be the last
+			// event: a CloseSend after the server has finished the stream still
+			// reports its OutTrailer)
+			if ne != 1 {
+				e.Violate(prop, "stats-end", site, "call %d: %s stats handler %d: %d End events (events: %s)", id, side, h.idx, ne, kindsOf(evs))
 				continue
 			}
-			endErr := evs[len(evs)-1].Err
+			var endErr error
+			for _, ev := range evs {
+				if ev.Kind == "End" {
+					endErr = ev.Err
+				}
+			}
+			if evs[len(evs)-1].Kind != "End" {
+				e.Note("side.end-not-last")
+			}
 			if (endErr == nil) != succeeded {
 				e.Violate(prop, "stats-end-error", site, "call %d: %s stats handler %d: End.Error=%v but RPC succeeded=%v", id, side, h.idx, endErr, succeeded)
 			}
